@@ -22,8 +22,10 @@ pub mod c18;
 pub mod c19;
 pub mod c20;
 pub mod diff;
+pub mod envprobe;
 pub mod fmtctx;
 pub mod pairs;
+pub mod ufcs;
 pub mod util;
 pub mod walk;
 
